@@ -572,6 +572,7 @@ def render_pdb_models(rng, nframes):
     lines = list(rng.choice([[], ["TITLE     models\n"], ["REMARK   1 generated\n", "CRYST1   10.000   10.000   10.000"
                              "  90.00  90.00  90.00 P 1           1\n"]]))
     starts = []
+    end_each = rng.random() < 0.35
     for i in range(nframes):
         one = real_dump_one("pdb", rand_frame(rng, i, "pdb"))
         starts.append(len(lines) if i else 0)
@@ -579,7 +580,10 @@ def render_pdb_models(rng, nframes):
         lines += [l for l in one if l.startswith(("ATOM", "HETATM"))]
         lines += [l for l in one if l.startswith("CONECT")]
         lines.append("ENDMDL\n")
-    lines += rng.choice([["END\n"], ["MASTER        0    0    0\n", "END\n"], []])
+        if end_each:
+            lines.append("END\n")  # single-model files concatenated: every frame is closed by ENDMDL and END
+    if not end_each:
+        lines += rng.choice([["END\n"], ["MASTER        0    0    0\n", "END\n"], []])
     return lines, starts
 
 
@@ -1516,6 +1520,30 @@ def search_fchk(ctx):
     from ..corpus import DATA
     from ..snapshot import first_diff
 
+    # a per-atom array of a trajectory file announced with another length (the reader takes what it is told): every
+    # frame's object is then inconsistent — LoadError, never another exception out of load_many
+    import re as _re
+
+    for name in ["peroxide_opt.fchk", "peroxide_relaxed_scan.fchk", "peroxide_irc.fchk", "peroxide_tsopt.fchk"]:
+        pth = DATA / name
+        if not pth.exists():
+            continue
+        flines = open(pth).readlines()
+        for k, l in enumerate(flines):
+            m = _re.match(r"^(Nuclear charges|Atomic numbers|Real atomic weights|Current cartesian coordinates)\s+[RI]\s+N=\s+(\d+)\s*$", l)
+            if not m:
+                continue
+            for delta in (-1, 1):
+                cl = list(flines)
+                cl[k] = l[: m.start(2)] + str(int(m.group(2)) + delta).rjust(len(m.group(2))) + l[m.end(2):]
+                tags, _nw, final = impl_fchk(cl, 4)
+                ok = final in ("LE", "done")
+                ctx.count("search-fchk-count", [name, k, delta], f"{m.group(1)}/{final.split(':')[0]}")
+                if not ok:
+                    ctx.fail(f"load_many:fchk:exception-class:{final.split(':')[-1]}",
+                             f"{name}: `{m.group(1)}` announced with N={int(m.group(2)) + delta}: {final} escapes load_many",
+                             {"kind": "fchk-count", "file": name, "line": k, "delta": delta})
+
     for name in ["peroxide_opt.fchk", "peroxide_relaxed_scan.fchk", "peroxide_irc.fchk", "peroxide_tsopt.fchk"]:
         p = DATA / name
         if not p.exists():
@@ -1624,6 +1652,15 @@ def replay(ctx, obj):
         if final != "done" or len(got) != len(per):
             return True
         return any(first_diff(_snap(g[4]), _snap(_load_one_file("extxyz", fr))) for g, fr in zip(got, per))
+    if kind == "fchk-count":
+        from ..corpus import DATA
+        import re as _re
+
+        fl_ = open(DATA / inp["file"]).readlines()
+        l = fl_[inp["line"]]
+        m = _re.search(r"N=\s+(\d+)\s*$", l)
+        fl_[inp["line"]] = l[: m.start(1)] + str(int(m.group(1)) + inp["delta"]).rjust(len(m.group(1))) + l[m.end(1):]
+        return impl_fchk(fl_, 4)[2].startswith("Other")
     if kind == "fchk-synthetic":
         pts = [(a, tuple(p)) for a, p in inp["pts"]]
         tags, nwarn, final = impl_fchk(fchk_text(inp["natom"], inp["prefix"], pts), inp["natom"])
